@@ -15,7 +15,7 @@ def run(ctx):
     ]
     plan.append({"scens": wcat.special_dep_scenarios(failing=True), "policies": ("FIFO", "LIFO"), "bound": 1})
     plan.append({"scens": wcat.wait_scenarios(), "policies": ("FIFO", "LIFO", "JOBS"), "bound": 1})
-    for pol in ("FIFO", "LIFO"):
+    for pol in ("FIFO", "LIFO", "Q:1,2,job"):
         plan.append({"scens": wcat.jobkill_scenarios(), "policies": (pol,), "kills": {"restart_bound": 0}})
     # a failing job taken back by a restarted experiment (kill at every point, restart at once / after the orphans ended)
     plan.append({"scens": wcat.kill_fail_scenarios(), "policies": ("FIFO",), "kills": {"restart_bound": 0}})
